@@ -74,7 +74,14 @@ def run_config(run, cfg, seed, tag):
             continue
         except Exception as ex:
             run.ok(kind="raised")
+            if any(ev[0] == "fault" for ev in sc.clock.log):
+                # the injected callback fault surfaced as ANOTHER exception: C17's subject (the same exception propagates)
+                run.other_error("C17:exception-not-propagated")
+                return
             run.violation("explain-raises", f"{tag} step {t}: explain_one raised {type(ex).__name__}: {ex} on a legal configuration", replay)
+            return
+        if any(ev[0] == "fault" for ev in log):
+            run.other_error("C17:exception-swallowed")      # a callback raised and explain_one returned normally: C17's subject
             return
         if t == 0:
             run.ok(kind="first-call")
